@@ -176,7 +176,7 @@ async fn main() -> Result<()> {
     }
 
     // Clear cache if requested (before creating engine)
-    if cli.clear_cache {
+    if cli.clear_cache && !cli.dry_run {
         use sync::dircache::DirectoryCache;
         if let Err(e) = DirectoryCache::delete(destination.path()) {
             tracing::warn!("Failed to clear directory cache: {}", e);
